@@ -1,6 +1,7 @@
 package main
 
 import (
+	"bufio"
 	"fmt"
 	"io"
 	"strings"
@@ -162,6 +163,16 @@ func execC13(c *Ctx, s *stream, form int, sch *ReadSched, stopAt int, render boo
 	}
 	r := NewSimReader(c, "rd", s.data, sch)
 	rd := r.AsReader()
+	// consumed: how far into the stream the caller's reader has been read, as the caller sees it
+	consumed := r.Consumed
+	if sch.Bufio > 0 {
+		// the caller's own bufio.Reader (an io.ByteReader: mxj must use it as it is): its position is
+		// what the stream delivered minus what is still buffered
+		br := bufio.NewReaderSize(r, sch.Bufio)
+		rd = br
+		consumed = func() int { return r.Consumed() - br.Buffered() }
+		c.C["probe.reader_kind_callers_bufio"]++
+	}
 	n := len(s.docs)
 	tag := codecNames[s.codec] + "/" + formNames[form]
 	faultOff := -1
@@ -283,7 +294,7 @@ func execC13(c *Ctx, s *stream, form int, sch *ReadSched, stopAt int, render boo
 			ncalls = complete + 1
 		}
 		for i := 0; i < ncalls; i++ {
-			before := r.Consumed()
+			before := consumed()
 			errBefore := r.ErrDelivered || r.CutDelivered
 			var m interface{}
 			var raw []byte
@@ -307,7 +318,7 @@ func execC13(c *Ctx, s *stream, form int, sch *ReadSched, stopAt int, render boo
 				return v
 			}
 			during := !errBefore && (r.ErrDelivered || r.CutDelivered)
-			if v := checkDoc(i, m, raw, form == 1, err, before, r.Consumed(), during); v != nil {
+			if v := checkDoc(i, m, raw, form == 1, err, before, consumed(), during); v != nil {
 				return v
 			}
 		}
@@ -323,13 +334,13 @@ func execC13(c *Ctx, s *stream, form int, sch *ReadSched, stopAt int, render boo
 		var herrs []error
 		last := 0
 		mh := func(m mxj.Map, raw []byte) bool {
-			invs = append(invs, inv{m, raw, last, r.Consumed()})
-			last = r.Consumed()
+			invs = append(invs, inv{m, raw, last, consumed()})
+			last = consumed()
 			return len(invs) != stopAt
 		}
 		eh := func(e error, raw []byte) bool {
 			herrs = append(herrs, e)
-			last = r.Consumed()
+			last = consumed()
 			return false
 		}
 		var ret error
@@ -347,8 +358,8 @@ func execC13(c *Ctx, s *stream, form int, sch *ReadSched, stopAt int, render boo
 		}); v != nil {
 			return v
 		}
-		c.Event("handler ret=%v invs=%d herrs=%d consumed=%d", ret, len(invs), len(herrs), r.Consumed())
-		note("handler returned %v after %d map-handler and %d error-handler invocations; consumed %d of %d", ret, len(invs), len(herrs), r.Consumed(), len(s.data))
+		c.Event("handler ret=%v invs=%d herrs=%d consumed=%d", ret, len(invs), len(herrs), consumed())
+		note("handler returned %v after %d map-handler and %d error-handler invocations; consumed %d of %d", ret, len(invs), len(herrs), consumed(), len(s.data))
 		// known finding: the bulk handlers skip a document that decodes to an empty Map ({}):
 		// 'live' lists the documents the map handler is invoked for on such a tree
 		var live []int
@@ -421,8 +432,8 @@ func execC13(c *Ctx, s *stream, form int, sch *ReadSched, stopAt int, render boo
 		}
 		if want > 0 && (want < n || stopAt == n) {
 			// stopped by the handler: nothing past the next document may be consumed
-			if lim := startOf(live[want-1] + 1); r.Consumed() > lim {
-				return &Violation{"C13.c5-stop-overread/" + tag, fmt.Sprintf("handler stopped after document %d but %d bytes were consumed (next document starts at %d)", want, r.Consumed(), lim)}
+			if lim := startOf(live[want-1] + 1); consumed() > lim {
+				return &Violation{"C13.c5-stop-overread/" + tag, fmt.Sprintf("handler stopped after document %d but %d bytes were consumed (next document starts at %d)", want, consumed(), lim)}
 			}
 			c.C["probe.c5_stop_checked"]++
 		}
